@@ -33,7 +33,8 @@ fn run_case(_kind: &str, idx: u64, rng: &mut Rng, mon: &mut Mon, _tier: Tier) {
             0 => {
                 let a = rng.range(-2.0 * PI, 2.0 * PI);
                 let b = rng.range(-2.0 * PI, 2.0 * PI);
-                if a < b { (a, b, "from<to") } else if a > b { (b, a, "from<to") } else { (a, b, "from==to") }
+                let (a, b) = if a <= b { (a, b) } else { (b, a) };
+                if a == b { (a, b, "from==to") } else if b - a > 2.0 * PI { (a, b, "from<to_span_over_2pi") } else { (a, b, "from<to") }
             }
             1 => (rng.range(0.05, 2.0 * PI), rng.range(-2.0 * PI, -0.05), "wrap_straddle"),
             2 => {
@@ -72,6 +73,15 @@ fn run_case(_kind: &str, idx: u64, rng: &mut Rng, mon: &mut Mon, _tier: Tier) {
             }
         };
         mon.count("draws");
+        // "accepted by the same constraints": the library's own verdict on its own draw
+        if !c.compliant(&draw) {
+            let all_ref_ok = (0..6).all(|j| arc_contains(from[j], to[j], draw[j]).0 != Some(false));
+            if reported.insert(format!("own-compliant:{}", all_ref_ok)) {
+                mon.violation(if all_ref_ok { "draw-rejected-by-own-compliant" } else { "draw-rejected-by-own-compliant-and-outside-arc" }, "a drawn joint vector is not accepted by the constraints it was drawn from", json!({"from": jf(&from), "to": jf(&to), "drawn": jf(&draw), "classes": classes}));
+            }
+        } else {
+            mon.held();
+        }
         for j in 0..6 {
             let (v, d) = arc_contains(from[j], to[j], draw[j]);
             if d < 1e-9 {
